@@ -1,4 +1,11 @@
 #[cfg(kani)]
+impl Record {
+    pub(crate) fn extent_state_for_harness(&self) -> u32 {
+        self.extent_state.load(Ordering::Acquire)
+    }
+}
+
+#[cfg(kani)]
 mod verif_kani_record {
     //! U11: extent reader-pin word and the successor-durability predicate (sequential contracts).
     use super::*;
